@@ -50,7 +50,9 @@ type Opt struct {
 	Cmd *Cmd
 
 	// Initial is the pre-existing content stored in the field before the parser is built (nil = zero value)
-	Initial []string // texts converted through the reference functions (multi: several)
+	Initial   []string      // texts converted through the reference functions (multi: several)
+	initAlias reflect.Value // the program's own reference to the list / map it stored (set by setInitial)
+	initCanon string
 
 	idx int
 	Val reflect.Value
@@ -104,13 +106,13 @@ type Grp struct {
 }
 
 type PosArg struct {
-	Field string
-	Name  string // positional-arg-name ("" = field name)
-	T     TypeSpec
-	Base  int    // base tag on an integer positional (0 = none)
-	Req   string // required tag text on the field ("" none, "yes", "2", "1-3")
-	ReqViaAPI bool // the counts are not declared by tag but assigned through Command.Args()[i].Required / RequiredMaximum
-	Desc  string
+	Field     string
+	Name      string // positional-arg-name ("" = field name)
+	T         TypeSpec
+	Base      int    // base tag on an integer positional (0 = none)
+	Req       string // required tag text on the field ("" none, "yes", "2", "1-3")
+	ReqViaAPI bool   // the counts are not declared by tag but assigned through Command.Args()[i].Required / RequiredMaximum
+	Desc      string
 	// PtrSlice: a positional declared as *[]string: NOT a list - it takes exactly one token (stored as a
 	// one-element slice behind the pointer) and then gives way to the next positional
 	PtrSlice bool
@@ -590,6 +592,36 @@ func setInitial(o *Opt) {
 	for _, txt := range o.Initial {
 		applyRef(v, o.T, o.Base, txt)
 	}
+	o.initAlias, o.initCanon = reflect.Value{}, ""
+	switch v.Kind() {
+	case reflect.Slice:
+		if v.Len() > 0 {
+			// the program keeps using the list it stored (e.g. a shared table of defaults): the field gets it with
+			// spare capacity, the program's own handle on the same storage is kept aside
+			nv := reflect.MakeSlice(v.Type(), v.Len(), v.Len()+4)
+			reflect.Copy(nv, v)
+			v.Set(nv)
+			o.initAlias, o.initCanon = reflect.ValueOf(nv.Interface()), Canon(nv)
+		}
+	case reflect.Map:
+		if !v.IsNil() {
+			o.initAlias, o.initCanon = reflect.ValueOf(v.Interface()), Canon(v)
+		}
+	}
+}
+
+// aliasDamage reports the first option whose pre-existing list or map - as the program still sees it through its
+// own reference - no longer holds what the program put there. The parser may give the FIELD a new value; what
+// the program stored before belongs to the program.
+func aliasDamage(d *Decl) string {
+	for _, o := range d.Opts {
+		if o.initAlias.IsValid() {
+			if now := Canon(o.initAlias); now != o.initCanon {
+				return fmt.Sprintf("the %s the program stored into %s before parsing held %s; through the program's own reference it now reads %s", o.initAlias.Kind(), o.Field, o.initCanon, now)
+			}
+		}
+	}
+	return ""
 }
 
 func baseTag(b int) string {
